@@ -159,12 +159,22 @@ def seq_case(res, W, rng, seq, exhaustive):
     stream = b"".join(kind_frame(k, i) for i, k in enumerate(seq))
     name = "recv_data_frame" if len(seq) % 2 else rng.choice(["recv_data_frame", "recv_data", "recv"])
     judge(res, W, stream, [(name, True)] * (len(seq) + 1), ("seq" if exhaustive else "rseq", seq, name), frame_under_test=None)
+    # the same history with per-fragment delivery (and, alternately, validation off): the sequencing rules are the same
+    if len(seq) >= 2:
+        kw = {"fire_cont_frame": True}
+        if len(seq) % 2:
+            kw["skip_utf8_validation"] = True
+        judge(res, W, stream, [("recv_data_frame", True)] * (len(seq) + 1), ("seq-pf" if exhaustive else "rseq-pf", seq, "recv_data_frame"), frame_under_test=None, ws_kwargs=kw)
 
 
-def judge(res, W, stream, script, tag, frame_under_test):
-    pred, model = M.predict(stream, script, ending="eof")
-    obs = H.run_recv_script(stream, script, ending="eof")
-    issues, judged, unj = M.compare(pred, obs)
+def judge(res, W, stream, script, tag, frame_under_test, ws_kwargs=None):
+    kw = ws_kwargs or {}
+    pf = bool(kw.get("fire_cont_frame"))
+    pred, model = M.predict(stream, script, ending="eof", per_fragment=pf, validate_utf8=not kw.get("skip_utf8_validation"))
+    obs = H.run_recv_script(stream, script, ending="eof", ws_kwargs=kw)
+    issues, judged, unj = M.compare(pred, obs, per_fragment=pf)
+    if pf:
+        res.count("per_fragment_mode_cases")
     res.case(tag, nontrivial=True)
     if unj:
         res.count("unjudged")
